@@ -873,6 +873,7 @@ static void mutate_checks(Node *t, const unsigned char *E) {
 done:
 	if (rem) KSI_TlvElement_free(rem);
 	if (el) KSI_TlvElement_free(el);
+	arena_free();
 	vh_exact_free(in, t->elen);
 }
 
